@@ -134,20 +134,28 @@ def prg_buflen(l, d, keyed):
 
 
 def gen_prg_one(rng, l, d, keyed, ncmd):
+    """random command sequence; the generator tracks pos/buf_len so that Step calls END EXACTLY on a buffer
+    boundary k*buf_len (k = 1, 2, 3; also reached by two consecutive Steps) and are followed by more commands"""
     ann = rb(rng, 4 * rng.randrange(0, 16))
     key = rb(rng, 4 * rng.randrange(l // 32, 16)) if keyed else b""
     bl = prg_buflen(l, d, keyed)
+    pos = 1 + len(ann) + len(key)
     toks, last = [], None
     for _ in range(ncmd):
-        def dlen():
-            return rng.choice([0, 1, bl - 1, bl, bl + 1, 2 * bl + 3, rng.randrange(3 * bl), rng.randrange(8)])
         kinds = ["A", "S", "T", "R", "A", "S"] + (["E", "D", "E", "D"] if keyed else [])
-        if last in ("A", "S", "E", "D") and rng.random() < 0.35:
+        if last in ("A", "S", "E", "D") and rng.random() < 0.4:
             k = last.lower()                               # continue the same command with another Step
         else:
             k = rng.choice(kinds)
+        if k in "ASED":
+            pos = 0                                        # commit
+        def dlen():
+            to_b = bl - pos                                # octets up to the next boundary
+            return rng.choice([0, 1, bl - 1, bl, bl + 1, 2 * bl + 3, rng.randrange(3 * bl), rng.randrange(8),
+                               to_b, to_b + bl, to_b + 2 * bl, to_b + bl - 1, to_b + bl + 1, to_b - 1 if to_b else 0,
+                               to_b, to_b + bl])
         if k == "T":
-            toks.append("T"); last = None
+            toks.append("T"); last = None; pos = 0
         elif k == "R":
             a2 = rb(rng, 4 * rng.randrange(0, 16))
             k2 = rb(rng, 4 * rng.randrange(l // 32, 16)) if rng.random() < 0.5 else b""
@@ -155,12 +163,39 @@ def gen_prg_one(rng, l, d, keyed, ncmd):
             if k2:
                 keyed = True
                 bl = prg_buflen(l, d, True)
+            pos = 1 + len(a2) + len(k2)
             last = None
-        elif k in ("S", "s"):
-            toks.append("%s:%d" % (k, dlen())); last = "S"
         else:
-            toks.append("%s:%s" % (k, H(rb(rng, dlen())))); last = k.upper()
+            n = dlen()
+            pos = (pos + n) % bl
+            if k in ("S", "s"):
+                toks.append("%s:%d" % (k, n)); last = "S"
+            else:
+                toks.append("%s:%s" % (k, H(rb(rng, n)))); last = k.upper()
+    toks.append("S:7")                                     # a further command whose output is compared
     return "prg %d %d %s %s %s" % (l, d, H(ann), H(key), " ".join(toks))
+
+
+def gen_prg_boundaries(rng, l, d, keyed):
+    """systematic: every Step function ends exactly at k*buf_len (k = 1, 2, 3), by one call and by two calls,
+    from pos = 0 and from pos > 0, always followed by further commands"""
+    ops = []
+    bl = prg_buflen(l, d, keyed)
+    ann = rb(rng, 8)
+    key = rb(rng, 32) if keyed else b""
+    head = "prg %d %d %s %s " % (l, d, H(ann), H(key))
+
+    def tok(c, n):
+        return "%s:%d" % (c, n) if c in "Ss" else "%s:%s" % (c, H(rb(rng, n)))
+    for c in ("A", "S") + (("E", "D") if keyed else ()):
+        for k in (1, 2, 3):
+            ops.append(head + "%s S:9 T S:3" % tok(c, k * bl))                              # one call, from pos 0
+            a = rng.randrange(1, bl)
+            ops.append(head + "%s %s S:9" % (tok(c, a), tok(c.lower(), k * bl - a)))         # two calls
+            ops.append(head + "%s %s %s A:0102 S:9" % (tok(c, a), tok(c.lower(), k * bl - a), tok(c.lower(), 2 * bl)))
+        ops.append(head + "%s %s S:9" % (tok(c, bl - 1), tok(c.lower(), bl + 1)))
+        ops.append(head + "%s %s %s S:9" % (tok(c, 2 * bl), tok(c.lower(), bl), tok(c.lower(), 1)))
+    return ops
 
 
 def gen_prg(ctx):
@@ -171,6 +206,7 @@ def gen_prg(ctx):
             for keyed in (False, True):
                 for _ in range(per):
                     ops.append(gen_prg_one(rng, l, d, keyed, rng.randrange(1, 14)))
+                ops += gen_prg_boundaries(rng, l, d, keyed)
                 # boundary: announcement + key fill the start block as far as the header allows
                 ops.append("prg %d %d %s %s S:1 T A:00 S:%d" % (l, d, "aa" * 60, ("bb" * 60) if keyed else "-",
                                                                   prg_buflen(l, d, keyed)))
@@ -286,6 +322,56 @@ def gen_botp(ctx):
         su = list(rng.choice(SUITES_OK)); su[rng.randrange(len(su))] = rng.choice("0159ACHMNQST-:x")
         ops.append(ocra_op(rng, "".join(su), qlen=8))
     ops += ["hotp 3 00 0000000000000000 1", "hotp 10 00 0000000000000000 1", "dt 6 00", "totp 6 00 99999999999999999999"]
+    return ops
+
+
+def suite_params(suite):
+    import re as _re
+    m = _re.fullmatch(r"OCRA-1:HOTP-HBELT-(\d):(C-)?Q([ANH])(\d\d)(?:-P(HBELT|SHA1|SHA256|SHA512))?(?:-S(\d\d\d))?(?:-T(\d\d?)([SMH]))?", suite)
+    if not m:
+        return None
+    return {"digit": int(m.group(1)), "ctr": bool(m.group(2)), "qmax": int(m.group(4)),
+            "pl": {"HBELT": 32, "SHA1": 20, "SHA256": 32, "SHA512": 64}.get(m.group(5), 0),
+            "sl": int(m.group(6)) if m.group(6) else 0, "ts": bool(m.group(7))}
+
+
+def gen_histories(ctx):
+    """several requests on ONE state: longer challenge first, then shorter ones; right / wrong / next passwords;
+    verification failure followed by further requests (the counter must not move on failure)"""
+    rng, ops = ctx.rng, []
+    n = 6 if ctx.tier == "quick" else 40
+    for _ in range(n):
+        dg = rng.randrange(4, 10)
+        toks = ["S:" + H(rng.choice([b"\xff" * 8, bytes(7) + b"\xff", rb(rng, 8), bytes(6) + b"\xff\xfe"]))]
+        for _ in range(rng.randrange(3, 12)):
+            toks.append(rng.choice(["R", "W", "N", "V:" + ("30" * dg), "V:3132", "G", "W", "N", "R",
+                                    "S:" + H(rb(rng, 8))]))
+        ops.append("hotps %d %s %s" % (dg, H(rb(rng, rng.choice([0, 16, 32, 40]))), " ".join(toks)))
+    ops.append("hotps 6 00112233 S:ffffffffffffffff N G R N W G V:303030303030 G R")
+    for _ in range(n // 2 + 1):
+        dg = rng.randrange(4, 10)
+        toks = []
+        for _ in range(rng.randrange(2, 8)):
+            t = rng.choice([0, 1, 2 ** 32, 2 ** 64 - 1, rng.getrandbits(36)])
+            toks.append(rng.choice(["R:%d" % t, "W:%d" % t, "V:%d:%s" % (t, "39" * dg), "V:%d:31" % t]))
+        ops.append("totps %d %s %s" % (dg, H(rb(rng, 32)), " ".join(toks)))
+    suites = SUITES_OK + [rand_suite(rng) for _ in range(n)]
+    for su in suites:
+        sp = suite_params(su)
+        if not sp:
+            continue
+        qm = sp["qmax"]
+        lens = [2 * qm, qm + 1, qm, qm - 1 if qm > 4 else 4, 4, 2 * qm, 5 if qm > 4 else 4, rng.randrange(4, 2 * qm + 1)]
+        toks = ["S:%s:%s:%s" % (H(rng.choice([b"\xff" * 8, rb(rng, 8)])), H(rb(rng, sp["pl"])), H(rb(rng, sp["sl"])))]
+        for ql in lens:                                   # LONGER challenge first, then shorter ones on the same state
+            t = rng.choice([0, 7, 2 ** 33, 2 ** 64 - 1])
+            q = rng.choice([rb(rng, ql), b"\xff" * ql])
+            toks.append(rng.choice(["R:%s:%d", "R:%s:%d", "W:%s:%d", "N:%s:%d", "V:%s:%d:" + "30" * sp["digit"]]) % (H(q), t))
+            if rng.random() < 0.2:
+                toks.append("G")
+        ops.append("ocras %s %s %s" % (H(su.encode()), H(rb(rng, 32)), " ".join(toks)))
+    ops.append("ocras %s %s R:00:0" % (H(SUITES_OK[0].encode()), "11" * 32))        # q too short
+    ops.append("ocras %s %s R:31323334:0" % (H(SUITES_BAD[0].encode()), "11" * 32))  # bad suite
     return ops
 
 
@@ -415,6 +501,24 @@ def search(ctx, exe, op, c_out):
                 ctr = (ctr + 1) % 2 ** 64
             if outs[-1] != ctr.to_bytes(8, "big").hex():
                 return True, "botpHOTP:counter", "HOTP counter after %s passwords: expected %s" % (w[4], ctr.to_bytes(8, "big").hex())
+        elif kind == "hotpv":
+            dg, key, ctr = int(w[1]), unh(w[2]), int.from_bytes(unh(w[3]), "big")
+            ok = py_dt(dg, belt_hmac(ctx, exe, key, ctr.to_bytes(8, "big"))) == unh(w[4]).decode("latin1")
+            exp = "%d %s" % (1 if ok else 0, ((ctr + (1 if ok else 0)) % 2 ** 64).to_bytes(8, "big").hex())
+            if c_out != exp:
+                return True, "botpHOTP:verify", "botpHOTPStepV: result/counter %s, expected %s (the counter advances on success only)" % (c_out, exp)
+        elif kind == "hotps":
+            return search_hotps(ctx, exe, w, c_out)
+        elif kind == "totps":
+            dg, key, outs = int(w[1]), unh(w[2]), c_out.split()
+            for i, t in enumerate(w[3:]):
+                f = t.split(":")
+                ref = py_dt(dg, belt_hmac(ctx, exe, key, int(f[1]).to_bytes(8, "big")))
+                exp = ref if f[0] == "R" else ("1" if f[0] == "W" or unh(f[2]).decode("latin1") == ref else "0")
+                if outs[i] != exp:
+                    return True, "botpTOTP:history", "TOTP request %d (%s): expected %s" % (i, t[:40], exp)
+        elif kind == "ocras":
+            return search_ocras(ctx, exe, w, c_out)
         elif kind == "totp":
             ref = py_dt(int(w[1]), belt_hmac(ctx, exe, unh(w[2]), int(w[3]).to_bytes(8, "big")))
             if ref != c_out:
@@ -422,6 +526,77 @@ def search(ctx, exe, op, c_out):
     except Exception as e:  # malformed outputs etc.: the oracle could not decide
         return False, "correspondence:" + kind, "search oracle failed on this op: %s" % e
     return False, "correspondence:" + kind, "implementation and model differ; the implementation-only test of the property passes on this input"
+
+
+def search_hotps(ctx, exe, w, c_out):
+    dg, key, outs, ctr, oi = int(w[1]), unh(w[2]), c_out.split(), 0, 0
+    pw = lambda c: py_dt(dg, belt_hmac(ctx, exe, key, (c % 2 ** 64).to_bytes(8, "big")))
+    for i, t in enumerate(w[3:]):
+        f = t.split(":")
+        exp = None
+        if f[0] == "S":
+            ctr = int.from_bytes(unh(f[1]), "big"); continue
+        if f[0] == "R":
+            exp = pw(ctr); ctr += 1
+        elif f[0] == "G":
+            exp = (ctr % 2 ** 64).to_bytes(8, "big").hex()
+        else:
+            otp = {"W": lambda: pw(ctr), "N": lambda: pw(ctr + 1), "V": lambda: unh(f[1]).decode("latin1")}[f[0]]()
+            ok = otp == pw(ctr)
+            exp = "1" if ok else "0"
+            if ok:
+                ctr += 1
+        if outs[oi] != exp:
+            return True, "botpHOTP:history", "HOTP history, command %d (%s): got %s, expected %s (counter must advance on success only)" % (i, t[:30], outs[oi], exp)
+        oi += 1
+    if outs[-1] != (ctr % 2 ** 64).to_bytes(8, "big").hex():
+        return True, "botpHOTP:history-counter", "HOTP counter after the history: expected %016x" % (ctr % 2 ** 64)
+    return False, "correspondence:hotps", "implementation-only HOTP history test passes"
+
+
+def search_ocras(ctx, exe, w, c_out):
+    suite = unh(w[1]).decode("latin1")
+    sp = suite_params(suite)
+    if sp is None or c_out in ("bad-format", "bad-op"):
+        return False, "correspondence:ocras", "no independent oracle for rejected suites"
+    key, outs, ctr, p, s_, oi = unh(w[2]), c_out.split(), 0, b"", b"", 0
+
+    def pw(c, q, t):
+        d = suite.encode("latin1") + b"\x00"
+        if sp["ctr"]:
+            d += (c % 2 ** 64).to_bytes(8, "big")
+        d += q + bytes(128 - len(q)) + p + s_
+        if sp["ts"]:
+            d += t.to_bytes(8, "big")
+        return py_dt(sp["digit"], belt_hmac(ctx, exe, key, d))
+    for i, t in enumerate(w[3:]):
+        f = t.split(":")
+        if f[0] == "S":
+            if sp["ctr"]:
+                ctr = int.from_bytes(unh(f[1]), "big")
+            if sp["pl"]:
+                p = unh(f[2])
+            if sp["sl"]:
+                s_ = unh(f[3])
+            continue
+        if f[0] == "G":
+            exp = (ctr % 2 ** 64).to_bytes(8, "big").hex()
+        else:
+            q, tt = unh(f[1]), int(f[2])
+            right = pw(ctr, q, tt)
+            if f[0] == "R":
+                exp = right; ctr += 1 if sp["ctr"] else 0
+            else:
+                otp = right if f[0] == "W" else (pw(ctr + (1 if sp["ctr"] else 0), q, tt) if f[0] == "N" else unh(f[3]).decode("latin1"))
+                ok = otp == right
+                exp = "1" if ok else "0"
+                if ok and sp["ctr"]:
+                    ctr += 1
+        if outs[oi] != exp:
+            return True, "botpOCRA:history", "OCRA request %d of the history (|Q| = %s): got %s, expected %s = DT(hmac(key, suite||00||[C]||Q padded with zeros to 128||[P]||[S]||[T]))" % (
+                i, len(unh(f[1])) if len(f) > 1 and f[0] != "S" else "-", outs[oi], exp)
+        oi += 1
+    return False, "correspondence:ocras", "implementation-only OCRA history test passes"
 
 
 def search_prg(ctx, exe, w, c_out):
@@ -564,7 +739,7 @@ def run(ctx):
         ctx.notes.append("cfg avx512 skipped (not passed): CPU has no avx512f")
     ctx.notes.append("cfg neon skipped (not passed): not an ARM host")
     cfgs += fcfgs
-    ops = corpus_lines() + gen_bashf(ctx) + gen_hash(ctx) + gen_prg(ctx) + gen_ctr(ctx) + gen_hmacgen(ctx) + gen_botp(ctx) + gen_belt(ctx)
+    ops = corpus_lines() + gen_bashf(ctx) + gen_hash(ctx) + gen_prg(ctx) + gen_ctr(ctx) + gen_hmacgen(ctx) + gen_botp(ctx) + gen_histories(ctx) + gen_belt(ctx)
     kinds = {}
     for o in ops:
         kinds[o.split()[0]] = kinds.get(o.split()[0], 0) + 1
@@ -622,7 +797,7 @@ def run(ctx):
         per_kind, hit = {}, None
         for o, r in zip(ops, c_out):
             k = o.split()[0]
-            if r == "bad-op" or per_kind.get(k, 0) >= (25 if k in ("prg", "ctr", "hmacgen", "hotp") else 80):
+            if r == "bad-op" or per_kind.get(k, 0) >= (25 if k in ("prg", "ctr", "hmacgen", "hotp", "hotps", "totps", "ocras") else 80):
                 continue
             per_kind[k] = per_kind.get(k, 0) + 1
             found, key, what = search(ctx, exe, o, r)
